@@ -415,7 +415,7 @@ import ast as _ast  # noqa: E402
 @contract
 class WorkerExtract(Contract):
     """dispatch of folders to workers (C06, C09, C12, C13): every decode goes through extract_single (which positions
-    the handle); folder i is decoded from src_start + packpositions[i] to src_start + packpositions[i+1] with its own
+    the handle); folder i is decoded from src_start + packpos + packpositions[i] to src_start + packpos + packpositions[i+1] with its own
     member list; a folder is skipped only when none of its members has a target; parallel workers get the file *name*
     (own handle) and the exception queue, and the queue is consulted before returning."""
 
@@ -424,7 +424,7 @@ class WorkerExtract(Contract):
     abstract = True
     self_class = ("py7zr.py7zr", "Worker")
     pure = ("get", "str")
-    stable_attrs = ("header", "main_streams", "packinfo", "unpackinfo", "packpositions", "numfolders", "folders", "files", "src_start", "target_filepath", "concurrent", "emptystream", "id", "name", "extract_single")
+    stable_attrs = ("header", "main_streams", "packinfo", "unpackinfo", "packpositions", "packpos", "numfolders", "folders", "files", "src_start", "target_filepath", "concurrent", "emptystream", "id", "name", "extract_single")
     noraise = ("Queue",)
     opaque = ("py7zr:Worker.extract_single",)  # recorded as an effect call; its own contract: ExtractSingleOuter
     frame_preserving = ("extract_single", "start", "join", "append", "empty", "open", "Queue", "concurrent")
@@ -448,7 +448,9 @@ class WorkerExtract(Contract):
         me = c.bound["self_"]
         positions = attr(attr(attr(attr(me, "header"), "main_streams"), "packinfo"), "packpositions")
         idx = i + plus
-        return B.binop(eng, _ast.Add(), attr(me, "src_start"), B.get_item(eng, positions, idx, None), None)
+        # packed stream i of the main streams starts at  <end of signature header> + pack position + packpositions[i]
+        base = B.binop(eng, _ast.Add(), attr(me, "src_start"), attr(attr(attr(attr(me, "header"), "main_streams"), "packinfo"), "packpos"), None)
+        return B.binop(eng, _ast.Add(), base, B.get_item(eng, positions, idx, None), None)
 
     def _pos(self, c, name):
         """position of parameter `name` in the CURRENT signature of Worker.extract_single (after self): positional
@@ -469,6 +471,17 @@ class WorkerExtract(Contract):
             Lp = eng.ghost.get("loop")
             me = c.bound["self_"]
             if Lp is None or not eng.ghost.get("in_loop"):
+                # outside the folder loops: the single-folder call decodes ALL members from the start of the packed
+                # streams to their end (the other out-of-loop calls hand over the empty members with offsets 0, 0)
+                P0 = lambda nm: self._pos(c, nm)
+                if len(ev.args) > max(P0("files"), P0("src_start"), P0("src_end")) and ev.args[P0("files")] is not None and V.is_sym(ev.args[P0("files")]) and c.pc_implies(eq(ev.args[P0("files")], attr(me, "files"))):
+                    from pyvc import builtins_model as B0
+
+                    pk = attr(attr(attr(me, "header"), "main_streams"), "packinfo")
+                    base = B0.binop(eng, _ast.Add(), attr(me, "src_start"), attr(pk, "packpos"), None)
+                    end = B0.binop(eng, _ast.Add(), base, B0.get_item(eng, attr(pk, "packpositions"), -1, None), None)
+                    c.oblig("assert", "single-folder-start-offset@extract_single", eq(ev.args[P0("src_start")], base), props=("C06",))
+                    c.oblig("assert", "single-folder-end-offset@extract_single", eq(ev.args[P0("src_end")], end), props=("C06",))
                 return
             folders = attr(attr(attr(attr(me, "header"), "main_streams"), "unpackinfo"), "folders")
             from pyvc import builtins_model as B
